@@ -402,9 +402,8 @@ pub(super) fn execute_delete_on_rows<S: GraphSnapshot>(
 
     ensure_non_detach_delete_safety(snapshot, detach, &nodes_to_delete, &seen_edges)?;
 
+    let mut detached_edges: std::collections::HashSet<EdgeKey> = std::collections::HashSet::new();
     if detach {
-        let mut detached_edges: std::collections::HashSet<EdgeKey> =
-            std::collections::HashSet::new();
         for &node_id in &nodes_to_delete {
             for edge in snapshot.neighbors(node_id, None) {
                 if detached_edges.insert(edge) {
@@ -422,6 +421,10 @@ pub(super) fn execute_delete_on_rows<S: GraphSnapshot>(
     }
 
     for edge in edges_to_delete {
+        // Already removed (and counted) while detaching one of its end nodes.
+        if detached_edges.contains(&edge) {
+            continue;
+        }
         txn.tombstone_edge(edge.src, edge.rel, edge.dst)?;
         deleted_count += 1;
     }
@@ -542,9 +545,8 @@ pub(super) fn execute_delete<S: GraphSnapshot>(
     ensure_non_detach_delete_safety(snapshot, detach, &nodes_to_delete, &seen_edges)?;
 
     // If detach=true, delete all edges connected to nodes being deleted
+    let mut detached_edges: std::collections::HashSet<EdgeKey> = std::collections::HashSet::new();
     if detach {
-        let mut detached_edges: std::collections::HashSet<EdgeKey> =
-            std::collections::HashSet::new();
         for &node_id in &nodes_to_delete {
             // Get all edges connected to this node and delete them
             for edge in snapshot.neighbors(node_id, None) {
@@ -564,6 +566,10 @@ pub(super) fn execute_delete<S: GraphSnapshot>(
 
     // Delete explicitly targeted edges.
     for edge in edges_to_delete {
+        // Already removed (and counted) while detaching one of its end nodes.
+        if detached_edges.contains(&edge) {
+            continue;
+        }
         txn.tombstone_edge(edge.src, edge.rel, edge.dst)?;
         deleted_count += 1;
     }
